@@ -15,8 +15,9 @@ HARNESSES = [dict(name="pppoe", pkg="./internal/pppoe/", test="TestVerifC02", ti
 # repaired = no defect, defective = the code today (all four); the remaining combinations of the four recorded
 # defects (flags: constant fall-back, unchecked release, expiry take-over release, untracked statics) keep the
 # check meaningful while fix patches are applied one at a time.
-VARIANTS = ["repaired", "defective"] + ["v%d%d%d%d" % (a, b, c, d) for a in (0, 1) for b in (0, 1) for c in (0, 1)
-                                        for d in (0, 1) if (a, b, c, d) not in ((0, 0, 0, 0), (1, 1, 1, 1))]
+VARIANTS = ["repaired", "defective"] + ["v%d%d%d%d%d" % t for t in
+                                        __import__("itertools").product((0, 1), repeat=5)
+                                        if sum(t) not in (0, 5)]
 MODEL_NEEDS_IMPL = True
 RULE = ("random configurations: 1-3 IPv4 pools (0-3 addresses, exclusions, two profiles, VRFs 0/1, globally disjoint "
         "ranges, sometimes one containing 100.64.0.1), 0-2 IA_NA pools, 0-2 PD pools (/63 or /62 -> /64); 2-5 "
@@ -326,6 +327,10 @@ def signature(case, impl, models):
         lost = [s for key, s in ml.items() if key not in il]
         if lost and any(x[0] == "IA" for x in ops[:k - 1]):
             return "dhcp4-expiry-takeover-frees-current-owner"
+    if o[0] in ("ID", "IQ") and (" nil " in mres + " ") and " panic " in ires + " " and il == ml:
+        return "dhcp4-unresolved-nil-pool-panic"
+    if o[0] in ("ID", "IQ") and (" nil " in mres + " ") and (" offer:" in ires or " ack:" in ires) and il == ml:
+        return "dhcp4-unresolved-answered-from-lease-table"
     if o[0] in ("PA", "ID", "IQ", "IS") and ires != mres and il == ml:
         # the code accepted an AAA-supplied address that lies in no pool and is already held in this VRF
         return "static-outside-pools-untracked"
